@@ -18,6 +18,22 @@ let step _ cs os =
   let f = fields cs and o = fields os in
   match get_opt o "crash" with
   | Some c -> ["BAD\tside=impl\tclause=crash:" ^ c]
+  | None when get_opt f "upfail" <> None && get_opt f "upfail" <> Some "0" ->
+    (* path=proxy upfail=K: the proxy's upstream connection fails underneath the request in flight (it is
+       closed by the upstream at one of four moments, no response ever comes). The extracted model describes
+       one message offered to one outbound path; it says nothing about a failing upstream, so neither the
+       model nor ok_C17 is applied: whether the proxy answers, closes or drops the downstream connection is
+       not judged. What is judged is the first sentence of the property, which holds at every moment: "With
+       an assumed peer frame limit configured (at least large enough to carry an error reply) no binary
+       message larger than the limit is ever sent by a server, proxy or client". The observation carries
+       max = the size of the largest binary message the raw downstream peer received (0 if none). *)
+    (match get f "limit" with
+     | "-" -> []
+     | l ->
+       let limit = n_of_hex l and mx = n_of_hex (get o "max") in
+       if BinNat.N.leb Limits.replacement_bound limit && BinNat.N.ltb limit mx
+       then ["BAD\tside=impl\tclause=binary-message-larger-than-the-limit-sent:max=" ^ get o "max" ^ ":limit=" ^ l]
+       else [])
   | None ->
     let a = { Limits.a_path = path_of (get f "path");
               a_limit = (let l = get f "limit" in if l = "-" then None else Some (n_of_hex l));
